@@ -61,7 +61,7 @@ CLAIMS.update({
  "C18": dict(tech="deterministic simulation: seeded term lists over built/loaded/merged segments compared with the reference model's union",
    text="Lists of 0-12 (field, term) pairs with repeats, absent terms, unknown fields (incl. the empty name), field switches inside the list and 1-hit terms; absent terms take texts that exist in other fields, lists of 63-300 entries, empty terms passed as nil slices; the returned bitmap must equal the model's union, never error or panic. Lifecycle scenario (deletes resolved per segment) included.",
    note="Trusted: reference model.", ref="DESIGN.md §5 C18"),
- "C19": dict(tech="deterministic simulation with exhaustive per-workload fault enumeration: storage fails from every read index on (4 error kinds: closed, EIO, short read, EINTR) and transiently, with lock invariant and hang detector; a sample of the workloads also under the Go race detector (nothing left behind by a failed call may race with the next use)",
+ "C19": dict(tech="deterministic simulation with exhaustive per-workload fault enumeration: storage fails from every read index on (5 error kinds: closed, EIO, short read, short read with io.EOF, EINTR) and transiently, with lock invariant and hang detector; a sample of the workloads also under the Go race detector (nothing left behind by a failed call may race with the next use)",
    text="Per generated workload (file-backed segment, program of 3-12 read calls of all kinds) the fault-free run counts R storage reads; then for every j in [0,R] the simulated disk fails from read j on with os.ErrClosed / EIO / short read, and for windows of 1 and 3 reads; oracle: no panic, a call that saw a storage error reports an error or an empty result (or, if it absorbed the failed read, the operation delivers the complete right result), after every call no segment mutex is held and all later calls return (goroutine-state hang detector as backstop), bounded reads per call after a transient fault. after an error the same iterator/reader is used again; DocsMatchingTerms lists span several fields. 5% of workloads additionally use a real temp file closed before each call in turn. A second scenario samples 30-80 fault positions on multi-chunk segments of 1 000-4 000 documents; a third lets the storage of a merge's file-backed inputs fail once or for good at sampled read positions (error, or the identical file). Every read of Load itself is enumerated too. After a transient fault every operation is repeated with fresh objects and must read what the segment holds. Stall watchdog: a shard blocked inside ice (lock, semaphore, channel) for 420 s is reported as a hang.",
    note="exhaustive refers to each workload's fault space; workloads are sampled. Correctness of data returned after a fault is not asserted.", ref="DESIGN.md §5 C19"),
 })
